@@ -21,15 +21,16 @@ func init() {
 	Register(&Monitor{
 		ID:    "C10",
 		Level: "exploration",
-		Rule: "(a) exhaustive: all operator chains of length 1..4 over the 14 binary operators (14 + 196 + 2744 + 38416 sequences, thorough: + 537824 quintuples; quick: 20000 sampled quintuples), each in a plain variant and variants with unary minus signs and operands drawn from numbers, strings, paths, function calls, the element names div/mod/and/or, the wildcard *, names containing '-': hook parse tree vs reference parser; " +
+		Rule: "(a) exhaustive: all operator chains of length 1..4 over the 14 binary operators (14 + 196 + 2744 + 38416 sequences, thorough: + 537824 quintuples; quick: 20000 sampled quintuples), each in a plain variant and variants with unary minus signs and operands drawn from numbers, strings, paths, function calls, the element names div/mod/and/or, the wildcard *, names containing '-': hook parse tree vs reference parser; and, independent of any tree representation, the VALUE of every chain of length 1..4 over the 13 operators other than '|' with distinct numeric operands (so that different groupings give different values) vs the reference value; " +
 			"(b) for every chain and for generated expressions of all kinds: the token list written with no optional whitespace, with conventional spacing and with spaces/tabs/newlines between every pair of tokens must give one parse tree, and (on a document) one value; " +
 			"(c) every abbreviation (a, @a, ., .., //) expanded position by position: same parse tree and same delivery sequence. Non-trivial: the chain mixes at least two precedence levels, or the expression has >= 6 tokens; distinct by text.",
 		Assume:        []string{"reference tokenizer/parser internal/xref written from the XPath 1.0 EBNF and lexical rules (3.7)", "hook VerifParseTree renders the tree built by the real parser without changing it"},
 		MinNontrivial: tierN(40000, 500000),
-		Required:      []string{"chains:len1", "chains:len2", "chains:len3", "chains:len4", "chains:len5", "ws:tree", "ws:value", "abbrev:tree", "abbrev:sequence"},
+		Required:      []string{"chainvals", "chains:len1", "chains:len2", "chains:len3", "chains:len4", "chains:len5", "ws:tree", "ws:value", "abbrev:tree", "abbrev:sequence"},
 		Families: []Family{
 			witnessFamily("C10"),
 			{Name: "chains", N: func(t string) int { return c10NumChains(t) }, Run: c10Chains},
+			{Name: "chainvals", N: func(string) int { return 13 + 169 + 2197 + 28561 }, Run: c10ChainValues},
 			{Name: "ws", N: tierN(80000, 3000000), Run: c10Whitespace},
 			{Name: "abbrev", N: tierN(80000, 3000000), Run: c10Abbrev},
 		},
@@ -244,4 +245,105 @@ func c10Abbrev(c *Case) {
 	c.SampleEvery(3001, func() interface{} {
 		return map[string]interface{}{"family": "abbrev", "abbreviated": src, "expanded": xref.Render(variants[0]), "positions": n}
 	})
+}
+
+// c10ChainValues: black-box precedence/associativity check - the value of an unparenthesised chain
+// over numeric literals (distinct, non-zero, so that every grouping gives a different value) must be
+// the value of the XPath grouping. Needs no hook.
+func c10ChainValues(c *Case) {
+	ops13 := []string{"or", "and", "=", "!=", "<", "<=", ">", ">=", "+", "-", "*", "div", "mod"}
+	i := c.Index
+	var ops []string
+	for n, size := 1, 13; n <= 4; n, size = n+1, size*13 {
+		if i < size {
+			ops = make([]string, n)
+			for k := n - 1; k >= 0; k-- {
+				ops[k] = ops13[i%13]
+				i /= 13
+			}
+			break
+		}
+		i -= size
+	}
+	vals := [][]string{{"7", "3", "2", "5", "11"}, {"2", "9", "4", "3", "8"}, {"1", "1", "2", "0.5", "3"}}
+	d := valueDoc(c.GShared("gdoc", 0))
+	for v, set := range vals {
+		for _, minus := range []bool{false, true} {
+			var sb []xref.Tok
+			for k := 0; k <= len(ops); k++ {
+				if minus && (k+v)%2 == 1 {
+					sb = append(sb, xref.Tok{S: "-", K: xref.TPunct})
+				}
+				sb = append(sb, xref.Tok{S: set[k], K: xref.TNumber})
+				if k < len(ops) {
+					kind := xref.TPunct
+					switch ops[k] {
+					case "or", "and", "div", "mod":
+						kind = xref.TName
+					}
+					sb = append(sb, xref.Tok{S: ops[k], K: kind, Op: true})
+				}
+			}
+			mode := []string{"std", "min", "wide"}[(c.Index+v)%3]
+			src := xref.Join(sb, mode, c.G(int64(v)).R)
+			ast, err := xref.Parse(src)
+			if err != nil {
+				panic(fmt.Sprintf("C10: reference parser rejects chain %q: %v", src, err))
+			}
+			want, oof := xref.SafeEval(ast, xref.NewCtx(d.Root))
+			if oof != "" {
+				continue
+			}
+			if comparesTwoBooleans(ast) {
+				// boolean = boolean is outside every property statement (the engine gets it wrong; DESIGN section 5,
+				// "observed but outside"): the value could differ although the parse is right
+				c.Skip("chain compares two booleans (outside the stated operand combinations)")
+				continue
+			}
+			ce := c.compile(src, func() map[string]interface{} { return map[string]interface{}{} })
+			if ce == nil {
+				return
+			}
+			got := c.RunEvaluate(ce, d.Root)
+			c.Count("chainvals")
+			if !sameValue(got, want) {
+				c.Violation("CHAIN-VALUE", map[string]interface{}{"expr": src, "expected": fmtValue(want), "observed": got.String(), "xpath_grouping": xref.Canon(ast)})
+				return
+			}
+			if len(ops) >= 2 {
+				c.Nontrivial("v|" + src)
+			}
+		}
+	}
+	c.SampleEvery(3001, func() interface{} {
+		return map[string]interface{}{"family": "chainvals", "operators": ops, "operands": vals}
+	})
+}
+
+func isBoolExpr(e xref.Expr) bool {
+	switch x := e.(type) {
+	case xref.Bin:
+		switch x.Op {
+		case "or", "and", "=", "!=", "<", "<=", ">", ">=":
+			return true
+		}
+	case xref.Group:
+		return isBoolExpr(x.X)
+	}
+	return false
+}
+
+func comparesTwoBooleans(e xref.Expr) bool {
+	found := false
+	xref.Walk(e, func(x xref.Expr) {
+		if b, ok := x.(xref.Bin); ok {
+			switch b.Op {
+			case "=", "!=", "<", "<=", ">", ">=":
+				if isBoolExpr(b.L) && isBoolExpr(b.R) {
+					found = true
+				}
+			}
+		}
+	})
+	return found
 }
